@@ -90,7 +90,7 @@ def run(tier):
     ck = core.Check(PID, tier)
     build.build_lib('tsan')
     binary = build.build_named_driver('tsan', 'thr_stress')
-    nproc = 40 if tier == 'quick' else 800
+    nproc = 40 if tier == 'quick' else 400
     items = 24 if tier == 'quick' else 120
     supp, suppressed_roots = suppression_file(ck)
     npinned = 5          # processes that run without suppressions (they re-observe the known findings)
